@@ -42,6 +42,7 @@ PROBES = [
     "stale-root-claimed",
     "unknown-root-claimed",
     "proof-from-path-only-store",
+    "verification-after-refused-request",
 ]
 FAULTS = ["msg-drop", "msg-dup", "msg-reorder", "msg-alter", "msg-substitute", "msg-stale-root"]
 COMPONENTS = {
@@ -181,7 +182,7 @@ class World(HWorld):
         # -- the channel ------------------------------------------------------
         if cmd.get("drop_each"):
             for i in range(len(proof)):
-                self.deliver(cmd, key, root, proof[:i] + proof[i + 1 :], ["drop"], f"node {i} of {len(proof)} dropped")
+                self.deliver(cmd, key, root, proof[:i] + proof[i + 1 :], ["drop"], f"node {i} of {len(proof)} dropped", full=proof)
                 st.fault("msg-drop")
         for variant in cmd.get("deliveries", []):
             nodes = list(proof)
@@ -192,7 +193,7 @@ class World(HWorld):
                 if kind:
                     kinds.append(kind)
                     st.fault(kind)
-            self.deliver(cmd, key, claimed, nodes, kinds, repr(variant), true_root=root)
+            self.deliver(cmd, key, claimed, nodes, kinds, repr(variant), true_root=root, full=proof)
         # the proof belongs to the caller now: scribbling over its node lists must not
         # affect the trie (no aliasing of internal state)
         for el in proof:
@@ -270,9 +271,32 @@ class World(HWorld):
             return self.foreign_model
         return None
 
-    def deliver(self, cmd, key, claimed, nodes, kinds, how, true_root=None):
+    def prime(self, key, root, full):
+        """A verification request that is refused (or fails) before any lookup starts, made
+        with the complete proof: it must leave nothing behind for the next request."""
+        sel = (self.ev + len(full)) % 5
+        try:
+            if sel == 0:
+                HexaryTrie.get_from_proof(root.hex(), key, list(full))  # root as text
+            elif sel == 1:
+                HexaryTrie.get_from_proof(None, key, tuple(full))
+            elif sel == 2:
+                HexaryTrie.get_from_proof(root, key, list(full) + [17])  # a non-node after the real ones
+            elif sel == 3:
+                HexaryTrie.get_from_proof(root, key, list(full) + [[b"\x01", b"\x02", b"\x03"]])  # a 3-item list
+            else:
+                HexaryTrie.get_from_proof(root, key.hex(), list(full))  # key as text
+            out = "returned"
+        except Exception:
+            out = "raised"
+        self.st.probe("verification-after-refused-request")
+        return out
+
+    def deliver(self, cmd, key, claimed, nodes, kinds, how, true_root=None, full=None):
         st = self.st
         st.execs += 1
+        if cmd.get("prime") and full is not None:
+            st.rec("prime", self.prime(key, true_root if true_root is not None else claimed, full))
         form = (self.ev + len(nodes)) % 4
         if form == 0:
             offered = tuple(nodes)
@@ -386,6 +410,8 @@ def generate(rng):
             c["pathonly"] = 1
         if rng.random() < 0.3:
             c["root"] = rng.randrange(1000)
+        if rng.random() < 0.3:
+            c["prime"] = 1
         if rng.random() < 0.6 and not deep_pool:
             c["drop_each"] = 1
         c["deliveries"] = [[gen_fault(rng, pool, probes) for _ in range(rng.choice([1, 1, 2, 3, 4]))] for _ in range(rng.choice([1, 2, 4]) if not deep_pool else 1)]
